@@ -77,6 +77,10 @@ func (x *c11) effects(c *ctx, kp *world.KeyPool) {
 						}
 					}
 					keys = append(keys, others...)
+					if world.KeyType(kt) == world.Secp256k1 && len(keys) > 1 {
+						// the first update key has a short coordinate
+						keys = append([]*world.Key{keys[0], world.ShortCoordinateKey()}, keys[1:]...)
+					}
 					d := &builtDID{code: code, keys: keys, nextID: int64(10 + si)}
 					d.curRec, d.curUpd = d.fresh(), d.fresh()
 					id := d.nextID
